@@ -51,6 +51,7 @@ type Options struct {
 	Sched          bool // scheduling choices are decisions
 	SchedBudget    int
 	BoundIsViolation bool // exceeding MaxSteps is a termination-obligation failure
+	RaceMonitor      bool // lockset monitor on maps shared between goroutines
 }
 
 type decision struct {
@@ -179,6 +180,8 @@ type interpreter struct {
 	natives  map[*value]interface{}
 	blobs    []value
 	panicSite string
+	mapAcc    map[*omap]*accessState
+	syncVC    map[interface{}]vclock
 }
 
 func (i *interpreter) interpretable(fn *ssa.Function) bool {
